@@ -206,8 +206,14 @@ def step_state(l3, machine, sidx, sym_is_end, alloc, stats, want=('c06', 'c03', 
     if 'c03' in want:
         d['obligations'] += ex.n_obl
         nfail = 0
+        # with -funsafe-string-indexing an index outside the string (incl. any index into an unallocated buffer) is the program's
+        # own precondition violation ("in-range only"): such inputs are excluded, using the abstract machine's definedness condition
+        excl = []
+        if machine.unsafe:
+            ubg = [z3.And(*pc, res.ub.any()) for pc, res in apaths]
+            excl = [z3.Not(z3.Or(*ubg))] if ubg else []
         for f in ex.fails:
-            r, mdl = getmodel(list(f.pc) + [f.cond])
+            r, mdl = getmodel(list(f.pc) + [f.cond] + excl)
             if r == z3.sat:
                 nfail += 1
                 findings.append({'kind': 'c03-mem', 'what': f.kind, 'detail': f.detail, 'ins': f.ins, '_cond': list(f.pc) + [f.cond], '_data': data, '_byte': b, **witness(mdl)})
